@@ -172,11 +172,11 @@ def compare(spec, recipe, lib_dis, lib_idx):
     return probs, info
 
 
-def eval_valid(spec, recipe):
+def eval_valid(spec, recipe, warm=None):
     from ..pool import deadline, CaseTimeout
     try:
         with deadline(120.0):
-            c = build_continuum(spec)
+            c = build_continuum(spec) if warm is None else A.warm_continuum(spec, warm, "best")
             d = A.DISSIMS.get(recipe)
             dis, idx = d.valid_alignments(c)
             return {"ok": True, "dis": np.array(dis), "idx": np.array(idx)}
@@ -264,6 +264,24 @@ def run(task):
         if probs:
             res["violations"].append({"msg": "; ".join(probs[:3]), "case": case})
             return
+        k = len(res["state_set"])
+        if block is None and k % 4 == 0 and len(spec["annotators"]) >= 2:
+            # non-initial state: a neighbouring continuum was aligned before, then turned into this one by a mutator
+            wrec = recipe if (k // 16) % 2 == 0 else {"k": "pos", "de": 0.35}
+            warm = {"recipe": wrec, "how": A.WARM_KINDS[(k // 4) % len(A.WARM_KINDS)]}
+            obs2 = eval_valid(spec, recipe, warm=warm)
+            res["evaluations"] += 1
+            res["transitions"] += 2
+            res["traces"] += 1
+            if not obs2["ok"]:
+                res["violations"].append({"msg": f"valid_alignments did not return after {warm['how']}(): {obs2['exc']}",
+                                          "case": dict(case, warm=warm)})
+                return
+            probs2, _ = compare(spec, recipe, obs2["dis"], obs2["idx"])
+            if probs2:
+                res["violations"].append({"msg": "; ".join(probs2[:2]) + f" [continuum reached by {warm['how']}() after "
+                                                 f"an earlier alignment]", "case": dict(case, warm=warm)})
+                return
         res["unspecified"] += info["unspecified"]
         res["outcomes"].append(info["count"])
         res["extra"]["max_candidates"] = max(res["extra"]["max_candidates"], info["count"])
@@ -292,7 +310,7 @@ def run(task):
 
 def replay(case):
     spec = case["spec"] if case.get("spec") else fam_block(case["block"]["sizes"], far=case["block"]["far"])
-    obs = eval_valid(spec, case["recipe"])
+    obs = eval_valid(spec, case["recipe"], warm=case.get("warm"))
     if not obs["ok"]:
         return [{"msg": f"valid_alignments did not return: {obs['exc']}", "case": case}]
     probs, info = compare(spec, case["recipe"], obs["dis"], obs["idx"])
